@@ -47,14 +47,14 @@ pub fn gen_call(
                     })
                     .fold(env.clone(), |env, self_var| env.assigned_to(&self_var));
 
+                generate(right, env, ctx, constr)?;
+                generate(left, &env_assigned_to, ctx, constr)?;
                 constr.add(
                     "reassign",
                     &Expected::from(left),
                     &Expected::from(right),
                     env,
                 );
-                generate(right, env, ctx, constr)?;
-                generate(left, &env_assigned_to, ctx, constr)?;
                 Ok(env_assigned_to)
             } else {
                 reassign_op(ast, left, right, op, env, ctx, constr)
